@@ -139,7 +139,7 @@ fn check(ctx_root: &std::path::Path, c: &Case, obs: &mut Obs) {
             return;
         }
     };
-    let out_dir = sandbox.join("a").join("out");
+    let out_dir = sandbox.join(ulpeer::OUT_REL);
     // clean the sandbox (keep the log files at its top level)
     for f in ulpeer::files_below(&sandbox) {
         if f.parent().map(|p| p.as_os_str().is_empty()).unwrap_or(true) && f.extension().map(|e| e == "log").unwrap_or(false) {
@@ -293,8 +293,8 @@ fn check(ctx_root: &std::path::Path, c: &Case, obs: &mut Obs) {
         if full.parent() == Some(out_dir.as_path()) {
             stored.push(full);
         } else {
-            let kind = if f.starts_with("a/out") { "in a sub-directory of the output directory" } else { "outside the output directory" };
-            obs.fail(format!("C32:file created {kind}"), format!("{} (output directory a/out); affected SOP Instance UIDs sent: {:?}", f.display(), c.stores.iter().map(|s| uid_text(&s.affected_instance, std::path::Path::new("<sandbox>"))).collect::<Vec<_>>()));
+            let kind = if f.starts_with(ulpeer::OUT_REL) { "in a sub-directory of the output directory" } else { "outside the output directory" };
+            obs.fail(format!("C32:file created {kind}"), format!("{} (output directory {}); affected SOP Instance UIDs sent: {:?}", f.display(), ulpeer::OUT_REL, c.stores.iter().map(|s| uid_text(&s.affected_instance, std::path::Path::new("<sandbox>"))).collect::<Vec<_>>()));
             let _ = std::fs::remove_file(&full);
         }
     }
@@ -371,7 +371,7 @@ fn strategy() -> BoxedStrategy<Case> {
 
 pub fn run(ctx: &Ctx) {
     let root = ctx.root.clone();
-    ctx.assume("the real dicom-storescp binary is built from /repo's working tree into /verif/target/tools by ./check; one process per worker thread and mode, each in its own sandbox directory (output directory <sandbox>/a/out)");
+    ctx.assume("the real dicom-storescp binary is built from /repo's working tree into /verif/target/tools by ./check; one process per worker thread and mode, each in its own sandbox directory (output directory <sandbox>/a/b/c/d/e/out, so that parent references stay inside the sandbox)");
     ctx.run_prop(
         "storescp",
         "a scripted requestor (reference PDU and data set encoders over a raw socket) sends 1-3 C-STORE requests per association to the real dicom-storescp binary (sync and --non-blocking): SOP classes from 4 storage classes, G-DS data sets in Implicit VR LE / Explicit VR LE / Explicit VR BE / Deflated Explicit VR LE, command and data split into fragments at generated cut points and at the acceptor's maximum PDU length, optionally ending with a zero-length last fragment, Affected SOP Instance UID texts that are plain UIDs, parent references (../), paths with separators, absolute paths (pointing into the sandbox, outside the output directory), dots only, backslashes; oracle: after the association every file in the sandbox lies directly inside the output directory; every acknowledged store (status 0) has a file whose meta group carries the negotiated transfer syntax and the data set's SOP class / instance UID and whose data set, parsed by the reference parser, equals the one sent; a plain request is never dropped; non-trivial = an acknowledged store with a path-like UID, several stores or fragmented data",
